@@ -13,6 +13,7 @@ import (
 	"os"
 	"path/filepath"
 	"regexp"
+	"runtime/pprof"
 	"sort"
 	"strconv"
 	"strings"
@@ -201,7 +202,13 @@ func cmdRun(args []string) int {
 	noReplay := fs.Bool("no-replay", false, "skip native witness replay")
 	trace := fs.Bool("trace", false, "trace calls")
 	noEvidence := fs.Bool("no-evidence", false, "do not write the evidence file")
+	cpuprof := fs.String("cpuprofile", "", "write a CPU profile")
 	fs.Parse(args)
+	if *cpuprof != "" {
+		f, _ := os.Create(*cpuprof)
+		pprof.StartCPUProfile(f)
+		defer pprof.StopCPUProfile()
+	}
 	if *prop == "" {
 		fmt.Fprintln(os.Stderr, "--property required")
 		return 2
